@@ -8,6 +8,8 @@ META_EXCLUDE.add('node_call_id')
 META_EXCLUDE.add('node_sock')
 META_EXCLUDE.add('node_without_result')
 META_EXCLUDE.add('success_channels')
+# bookkeeping of the event loop on events that are being dispatched
+META_EXCLUDE.update(('cause', 'effects', 'complete_channels', '_handler_failed'))
 
 
 def load_event(s):
